@@ -212,6 +212,10 @@ type Explorer struct {
 	Rng    *rand.Rand
 	Random bool
 	Runs   int
+	// Mode selects a directed schedule of the driver: "probe" (clients one after the other, counting
+	// the gates each passes before it blocks) or "brink" (see the buffer driver); "" = explore.
+	Mode  string
+	Gates map[int]int // probe result: client -> gates passed before it first blocked or finished
 }
 
 // Begin starts one execution.
@@ -232,6 +236,13 @@ func (e *Explorer) Choose(n int) int {
 			pick = n - 1
 		}
 	}
+	e.trail = append(e.trail, [2]int{n, pick})
+
+	return pick
+}
+
+// Force records a choice made by the driver itself (directed schedules).
+func (e *Explorer) Force(n, pick int) int {
 	e.trail = append(e.trail, [2]int{n, pick})
 
 	return pick
